@@ -117,6 +117,26 @@ class Stats:
         return self
 
 
+def blames_code_under_test(tb_text):
+    """an uncaught exception whose traceback passes through the outrank package (the innermost frames are there or in a library it called)"""
+    lines = [l for l in tb_text.splitlines() if l.strip().startswith('File ')]
+    for l in reversed(lines):
+        if '/verif/' in l or '/mc/' in l:
+            return False          # innermost frames belong to the harness: a harness error
+        if '/outrank/' in l:
+            return True
+    return False
+
+
+def uncaught_as_violation(exc, tb_text, item):
+    st = Stats()
+    st.count('evaluations')
+    st.violation({'kind': 'uncaught', 'job': repr(item)[:300]},
+                 f'the code under test raised {type(exc).__name__}: {exc} (not caught by any oracle of this family); traceback tail: ' + ' | '.join(tb_text.strip().splitlines()[-6:]),
+                 {'kind': 'uncaught_exception', 'exc': type(exc).__name__})
+    return st
+
+
 def _pmap_worker(payload):
     func, item = payload
     try:
@@ -124,7 +144,11 @@ def _pmap_worker(payload):
     except HarnessError as e:
         return ('harness', f'{e}\n{traceback.format_exc()}')
     except BaseException as e:  # noqa
-        return ('harness', f'{type(e).__name__}: {e}\n{traceback.format_exc()}')
+        tb = traceback.format_exc()
+        if blames_code_under_test(tb):
+            # a crash of the code under test is a violation with the executing job as the case, never a harness error
+            return ('ok', uncaught_as_violation(e, tb, item))
+        return ('harness', f'{type(e).__name__}: {e}\n{tb}')
 
 
 def pmap(func, items, procs=None, chunksize=1):
